@@ -276,9 +276,11 @@ class CFG:
                 return False
             b = p
 
-    def reachable(self, src: int, dst: int, avoid: Iterable[int] = (), skip_labels: Iterable = ()) -> bool:
-        """Is there a path src ->* dst that does not pass through any node of ``avoid`` (src itself
-        may be in avoid)?"""
+    def reachable(self, src: int, dst: int, avoid: Iterable[int] = (), skip_labels: Iterable = (),
+                  within: Optional[Set[int]] = None) -> bool:
+        """Is there a path src ->* dst (at least one edge) that does not pass through any node of
+        ``avoid`` (src itself may be in avoid) and, if ``within`` is given, whose intermediate nodes all
+        lie in ``within``?"""
         avoid = set(avoid)
         skip = set(skip_labels)
         seen = {src}
@@ -291,6 +293,8 @@ class CFG:
                 if m == dst:
                     return True
                 if m in seen or m in avoid:
+                    continue
+                if within is not None and m not in within:
                     continue
                 seen.add(m)
                 stack.append(m)
@@ -354,6 +358,18 @@ class CFG:
                             out.append((t, lab))
         return out[::-1]
 
+    def nodes_inside(self, stmts: List[ast.stmt]) -> Set[int]:
+        """CFG nodes that belong lexically to the given statements (incl. nested blocks)."""
+        ids = set()
+        for st in stmts:
+            for x in ast.walk(st):
+                ids.add(id(x))
+        out = set()
+        for n, nd in self.nodes.items():
+            if (nd.ast is not None and id(nd.ast) in ids) or (nd.owner is not None and id(nd.owner) in ids):
+                out.add(n)
+        return out
+
     def nodes_of_kind(self, *kinds) -> List[int]:
         return [i for i, n in self.nodes.items() if n.kind in kinds]
 
@@ -397,9 +413,20 @@ class CFG:
         out = []
         if nd.kind == "entry":
             a = self.func.args
-            for arg in a.posonlyargs + a.args + a.kwonlyargs + ([a.vararg] if a.vararg else []) + (
-                    [a.kwarg] if a.kwarg else []):
+            allargs = a.posonlyargs + a.args + a.kwonlyargs + ([a.vararg] if a.vararg else []) + (
+                [a.kwarg] if a.kwarg else [])
+            for arg in allargs:
                 out.append((arg.arg, arg, None))
+            # attributes of the first parameter (self) that the function stores to have an implicit
+            # definition at entry: the value the attribute had when the function was called
+            if allargs:
+                first = allargs[0].arg
+                seen = set()
+                for x in _walk_own(self.func):
+                    if isinstance(x, ast.Attribute) and isinstance(x.ctx, (ast.Store, ast.Del)) and isinstance(
+                            x.value, ast.Name) and x.value.id == first and x.attr not in seen:
+                        seen.add(x.attr)
+                        out.append((f"{first}.{x.attr}", x, None))
             return out
         if nd.kind == "next":
             for t in _targets(nd.ast):
